@@ -25,6 +25,10 @@ func TestVerifReplay(t *testing.T) {
 	func() {
 		defer func() {
 			r := recover()
+			if lbl := vFrozenChanged(); lbl != "" {
+				fmt.Println("REPLAY-RESULT violated:store-to-" + lbl)
+				return
+			}
 			switch x := r.(type) {
 			case nil:
 				fmt.Println("REPLAY-RESULT ok")
